@@ -26,17 +26,17 @@ LEVEL = 'model_checking'
 TECHNIQUE = ('bounded exhaustive enumeration of (quantified pattern sequence, element sequence, container) on the real matcher with '
              "Python's re as reference model on every case; exhaustive self-match / leaf-mutation / layout / call-order "
              'enumeration over the program set')
-LEVEL_TEXT = ('all pattern sequences up to length 3 over a 39-element quantifier alphabet (incl. static tags and single-node captures inside quantifiers) x all element sequences up to length 5 '
+LEVEL_TEXT = ('all pattern sequences up to length 3 over a 45-element quantifier alphabet (incl. static tags, single-node captures inside quantifiers, groups and back-references; length 4 over a 10-element core) x all element sequences up to length 5 '
               'over {a,b,c} in three container kinds are matched by the real code and compared (accept/reject and captured '
-              'spans) with re.fullmatch; every node of 58 programs x derived patterns for the structural laws')
+              'spans) with re.fullmatch; every node of 65 programs x derived patterns for the structural laws')
 LEVEL_NOTE = ('trusted: Python re as the definition of quantifier semantics (sub-sequence quantifiers with inner quantifiers are '
               'atomic groups as documented); CPython ast for pure-AST targets')
 RULE = ('enum: case = (container, pattern sequence, element string) or (program, node, derived pattern); non-trivial = distinct '
         'cases where the regex accepts (captures compared) or a structural law was exercised on a node with children; '
         'traces = matches compared with the reference')
 ASSUMPTIONS = ['patterns without source-text sub-patterns for the layout law']
-BOUNDS = {'quick': 'pattern sequences <= 3 over 36 alphabet entries (<=2 quantifiers with captures), strings <= 4 over {a,b,c} in '
-                   'List.elts; length-2 sequences in body and Tuple; structural laws on 45 programs',
+BOUNDS = {'quick': 'pattern sequences <= 3 over 45 alphabet entries and <= 4 over a 10-entry core (groups and back-references), strings <= 4 over {a,b,c} in '
+                   'List.elts; length-2 sequences in body and Tuple; structural laws on 65 programs',
           'thorough': 'strings <= 6, sequences <= 3 in all containers, sequences of 4 over the 10-entry core alphabet'}
 
 
